@@ -1782,7 +1782,8 @@ class LinearOperator(object):
         logdet_term = pinvk_logdet
         logdet_term = logdet_term + logdet_p
 
-        if inv_quad_term.numel() and reduce_inv_quad:
+        # Without an inv_quad_rhs, inv_quad_term is a placeholder (zeros of the batch shape): nothing to reduce
+        if inv_quad_rhs is not None and inv_quad_term.numel() and reduce_inv_quad:
             inv_quad_term = inv_quad_term.sum(-1)
         return inv_quad_term, logdet_term
 
